@@ -835,3 +835,163 @@ def c09(tier):
     return run_e2('C09', tier, body, bounds='two namespaces in two files defining complexTypes with the same local name; type= and base= references whose prefix is symbolic; '
                   'declaration order symbolic (3 or all 6 orders); one prefix bound to different namespaces in different files. Outside: element ref= / message part collisions '
                   '(exercised by C05), kinds other than complexType.')
+
+
+# ================================================================================================ C10
+
+def uri_class(u1, u2):
+    def last(u):
+        return [x for x in u.rstrip('/').split('/') if x][-1] if '/' in u else u.split(':')[-1]
+    if u1 == u2:
+        return 'same-uri'
+    if last(u1) == last(u2):
+        return 'same-last-segment'
+    if last(u1)[:3].lower() == last(u2)[:3].lower():
+        return 'same-first-three-letters'
+    return 'other'
+
+
+def namespace_oracle(env, items, info, m):
+    out = []
+    ua, ub = env.v(info.ua), env.v(info.ub)
+    # on every path the URIs that reach the output have been concretised by the reader (abbreviation forks on them)
+    pairs = []       # (prefix, uri, where)
+    mods = {}        # module -> set of own-namespace URIs of its structs
+    for it in items:
+        if it.kind != 'struct' or it.attrs is None:
+            continue
+        ns = RO.one(O.attr_get(it.attrs, 'namespaces'))
+        own = RO.one(O.attr_get(it.attrs, 'prefix'))
+        if isinstance(ns, tuple):
+            for p, u in ns:
+                pairs.append((p, u, RO.one(it.name)))
+                if p == own:
+                    mods.setdefault(RO.one(it.module), set()).add(u)
+    by_prefix = {}
+    by_uri = {}
+    where = {}
+    file_of = {'InA': 'a.xsd', 'InB': 'b.xsd'}
+    for p, u, w in pairs:
+        by_prefix.setdefault(p, set()).add(u)
+        by_uri.setdefault(u, set()).add(p)
+        where.setdefault(u, set()).add(file_of.get(w, w))
+
+    def origin(us):
+        """were the colliding abbreviations assigned while reading different files (documents abbreviate independently)?"""
+        fs = [where.get(u, set()) for u in us[:2]]
+        return 'assigned-in-different-files' if len(fs) == 2 and fs[0] and fs[1] and not (fs[0] & fs[1]) else 'assigned-in-one-file'
+    for p, us in sorted(by_prefix.items()):
+        us = sorted(us)
+        out.append(O.Check('prefix-injective', 'prefix %r is declared for %d namespaces: %s' % (p, len(us), us), len(us) == 1,
+                           cls=(lambda params, us=us: origin(us)) if len(us) > 1 else None))
+    for u, ps in sorted(by_uri.items()):
+        out.append(O.Check('uri-one-prefix', 'namespace %s gets %d prefixes: %s' % (u, len(ps), sorted(ps)), len(ps) == 1))
+    for mod, us in sorted(mods.items(), key=lambda kv: str(kv[0])):
+        us = sorted(us)
+        out.append(O.Check('module-injective', 'module %s holds components of %d namespaces: %s' % (mod, len(us), us), len(us) == 1,
+                           cls=(lambda params, us=us: origin(us)) if len(us) > 1 else None))
+    mod_of_uri = {}
+    for mod, us in mods.items():
+        for u in us:
+            mod_of_uri.setdefault(u, set()).add(mod)
+    for u, ms in sorted(mod_of_uri.items()):
+        out.append(O.Check('uri-one-module', 'namespace %s is spread over %d modules: %s' % (u, len(ms), sorted(map(str, ms))), len(ms) == 1))
+    # every module header appears once
+    names = [RO.one(it.name) for it in items if it.kind == 'mod']
+    out.append(O.Check('module-declared-once', 'a module is declared twice: %s' % sorted(n for n in set(names) if names.count(n) > 1), len(names) == len(set(names)),
+                       cls=lambda params: 'assigned-in-different-files'))
+    # both components exist, each inside the module of its own namespace
+    for nm in (('InA',) if getattr(info, 'single', False) else ('InA', 'InB')):
+        sts = O.find_structs(items, nm, env.allowed)
+        out.append(O.Check('struct-exactly-once', '%s emitted once (found %d)' % (nm, len(sts)), len(sts) == 1))
+    # field prefixes are declared somewhere with a URI
+    for it in items:
+        if it.kind == 'struct':
+            for fa, fd in it.fields:
+                p = RO.one(O.attr_get(fa, 'prefix'))
+                if p is not None and p != 'soapenv':
+                    out.append(O.Check('field-prefix-declared', '%s.%s uses prefix %r which no namespaces map declares' % (RO.one(it.name), RO.one(fd)[0], p), p in by_prefix))
+    return out
+
+
+def c10(tier):
+    def body(s):
+        s.functions.update(n for n in s.ctx.bodies if re.search(r'add_namespace_reference|switch_to_target_namespace|make_abbreviated_namespace|::extend|extend_no_duplicates|collect_namespaces|create_mod_name', n))
+        for sc, info in (F.n_namespaces(tier), F.n_within(tier)):
+            scenario_check(s, sc, info, namespace_oracle, classify=lambda c, p, i: (c.cls(p) if c.cls else ''))
+    return run_e2('C10', tier, body, bounds='four namespace URIs (target of the start file, referenced-only root xmlns, target of an imported file, nested xmlns in the imported file), each symbolic over '
+                  '%d adversarial URIs (equal last segments, equal three-letter abbreviations, dots, dashes, trailing slash, URN, equal URIs). Outside: more than 4 namespaces, the 255-collision abort (C13).' % (8 if tier == 'thorough' else 5))
+
+
+# ================================================================================================ C03 (annotation level)
+
+def annotation_oracle(env, items, info, m):
+    mp, _ = mod_map(items, info, env)
+    out = []
+    targets = [(fn, ct, None) for fn, ct in info.subjects] + [(fn, ct, base) for fn, ct, base in getattr(info, 'derived', [])]
+    for fn, ct, base in targets:
+        sch = info.schemas[fn]
+        name = pascal(ct.name)
+        cands = O.find_structs(items, name, env.allowed)
+        if len(cands) != 1:
+            out.append(O.Check('struct-exactly-once', '%s emitted once (found %d)' % (ct.name, len(cands)), False))
+            continue
+        st = cands[0]
+        bf = inherited_fields(env, info, base[0], base[1], mp) if base is not None else []
+        own = O.expected_fields(env, sch, ct, mp)
+        for f in own:
+            f['decl_ns'] = sch.tns
+        exp = bf + own
+        nsmap = O.attr_get(st.attrs, 'namespaces')
+        sp = O.attr_get(st.attrs, 'prefix')
+        tns = env.v(sch.tns)
+
+        def bound(nm, p):
+            if not isinstance(nm, tuple) or p is None:
+                return None
+            return dict(nm).get(p)
+        out.append(O.Check('struct-rename', '%s: struct rename = local name' % ct.name, RO.sym_eq(O.attr_get(st.attrs, 'rename'), env.v(ct.name), env.allowed)))
+        out.append(O.Check('struct-namespace', '%s: struct prefix must be bound to the component\'s own namespace in its namespaces map' % ct.name,
+                           RO.sym_eq(smap(bound, nsmap, sp, allowed=env.allowed), tns, env.allowed)))
+        for i, (fa, fd) in enumerate(st.fields[:len(exp)]):
+            e = exp[i]
+            if e.get('any'):
+                continue
+            p = O.attr_get(fa, 'prefix')
+            what = '%s field #%d (%s)' % (ct.name, i, RO.one(e['rename']))
+            if e['attr']:
+                out.append(O.Check('attribute-unqualified', what + ': an attribute member must be unqualified (no prefix); has prefix %r' % (RO.one(p),),
+                                   RO.sym_eq(p, None, env.allowed)))
+                continue
+            # the namespace the member's element belongs to: the referenced element's for ref=, else the declaring schema's
+            if e.get('decl_prefix') is not None:
+                dns = smap(lambda q: sch.prefixes.get(q), e['decl_prefix'], allowed=env.allowed)
+                dns = smap(lambda u: u, env.v(dns) if not isinstance(dns, SymVal) else dns, allowed=env.allowed)
+                if isinstance(dns, Selector):
+                    dns = env.v(dns)
+            else:
+                dns = env.v(e.get('decl_ns'))
+            got = smap(bound, nsmap, p, allowed=env.allowed)
+            out.append(O.Check('member-namespace-bound', what + ': field prefix must be bound, in the namespaces map of the containing struct, to the namespace that declares the element',
+                               RO.sym_eq(got, dns, env.allowed),
+                               cls=lambda params, e=e: 'ref-or-inherited-from-other-namespace' if (e.get('decl_prefix') is not None or e.get('decl_ns') != sch.tns) else 'own-namespace'))
+    return out
+
+
+def c03(tier):
+    def body(s):
+        s.functions.update(n for n in s.ctx.bodies if re.search(r'field::<impl.*write_xml|write_complex_type|write_type_alias|Field.*try_from_node|switch_to_target_namespace|import_extension', n))
+        fams = [F.s_seq(tier)[1], F.s_xns(tier), F.s_ref_anon_fwd(tier), F.x_cross(tier), F.x_chain(tier), F.s_xref(tier)]
+        for sc, info in fams:
+            if not hasattr(info, 'bases'):
+                info.bases = {}
+            scenario_check(s, sc, info, annotation_oracle, classify=lambda c, p, i: (c.cls(p) if c.cls else ''))
+    return run_e2('C03', tier, body, level='other',
+                  bounds='families S-seq-attr, S-xns, S-ref-anon-fwd, X-cross, X-chain, S-xref (ref= to an element of another namespace, both URIs symbolic over adversarial URIs). '
+                         'Claimed at annotation level only.',
+                  explanation='Serialization is executed by yaserde derive expansion and xml-rs at run time, which neither engine can execute. zeep influences the wire format only through '
+                              'the yaserde attributes it emits, so what is decided (symbolically, per path, by z3) is the generator-side obligation set: rename = declared local name; '
+                              'element members carry a prefix bound IN THE CONTAINING STRUCT\'S namespaces map to the namespace declaring the element; attribute members carry '
+                              'attribute = true and no prefix; field order = declaration order (C02 oracle); struct-level prefix/rename/namespaces name the component. Lexical forms, '
+                              'escaping and occurrence on the wire are outside the claim.',
+                  extra_assumptions=['yaserde 0.12 semantics of prefix / namespaces / rename / attribute are trusted as documented'])
